@@ -161,7 +161,11 @@ def verify_path_task(task: Tuple[str, List[int]]) -> Dict[str, Any]:
             st = c.get('status')
             if st in ('unrealisable', 'precondition-not-met'):
                 out['cross']['unrealisable'] += 1
-            elif st in ('concretizer-error', 'replay-error', 'contract-error'):
+            elif st in ('concretizer-error', 'replay-error'):
+                # the harness could not build / run a concrete input for this model: no comparison was made (counted,
+                # never an agreement and never an alarm)
+                out['cross']['unrealisable'] += 1
+            elif st in ('contract-error',):
                 out['cross']['mismatch'].append(c)
             else:
                 out['cross']['checked'] += 1
